@@ -44,37 +44,39 @@ def one_text(outs):
 def r02_1(ctx):
     idx = get_index(ctx.env)
     pure = lambda: FlagV("VTGroup", frozenset(["PURE"]))
-    # --- ArithmeticOp
-    mem = members_by_value(idx, "ArithmeticType")
-    for op, exp in O.BINARY_ARITH.items():
-        ctx.need(op in mem, f"ArithmeticType has no member spelled {op!r}")
-        for sa in (True, False):
-            fi, outs = run_il_exec(idx, "ArithmeticOp", lambda: {
-                "arith_type": mem[op],
-                "ops": [mk_pure("a", mk_vt("ta", sa, 32)), mk_pure("b", mk_vt("tb", sa, 32))]})
-            ctx.check(f"ArithmeticOp.il_exec[{op},{'s' if sa else 'u'}]", one_text(outs) == exp, exp, one_text(outs), fn_where(idx, fi))
-    # --- BitOp
-    mem = members_by_value(idx, "BitOperationType")
-    for op, exp in O.BITOPS.items():
-        ctx.need(op in mem, f"BitOperationType has no member spelled {op!r}")
-        unary = op in ("~",) or (op == "-")
-        for sa in (True, False):
-            for sb in (True, False):
-                e = exp[sa] if isinstance(exp, dict) else exp
-                fi, outs = run_il_exec(idx, "BitOp", lambda: {
+    for W in (32, 64):
+        WS = "" if W == 32 else f" at {W} bit"
+        # --- ArithmeticOp
+        mem = members_by_value(idx, "ArithmeticType")
+        for op, exp in O.BINARY_ARITH.items():
+            ctx.need(op in mem, f"ArithmeticType has no member spelled {op!r}")
+            for sa in (True, False):
+                fi, outs = run_il_exec(idx, "ArithmeticOp", lambda: {
+                    "arith_type": mem[op],
+                    "ops": [mk_pure("a", mk_vt("ta", sa, W)), mk_pure("b", mk_vt("tb", sa, W))]})
+                ctx.check(f"ArithmeticOp.il_exec[{op},{'s' if sa else 'u'}]{WS}", one_text(outs) == exp, exp, one_text(outs), fn_where(idx, fi))
+        # --- BitOp
+        mem = members_by_value(idx, "BitOperationType")
+        for op, exp in O.BITOPS.items():
+            ctx.need(op in mem, f"BitOperationType has no member spelled {op!r}")
+            unary = op in ("~",) or (op == "-")
+            for sa in (True, False):
+                for sb in (True, False):
+                    e = exp[sa] if isinstance(exp, dict) else exp
+                    fi, outs = run_il_exec(idx, "BitOp", lambda: {
+                        "op_type": mem[op],
+                        "ops": [mk_pure("a", mk_vt("ta", sa, W))] + ([] if unary else [mk_pure("b", mk_vt("tb", sb, W))])})
+                    ctx.check(f"BitOp.il_exec[{op},a={'s' if sa else 'u'},b={'s' if sb else 'u'}]{WS}", one_text(outs) == e, e, one_text(outs), fn_where(idx, fi))
+        # --- CompareOp: precondition (R02.3): both operands already have the common type, so sa == sb
+        mem = members_by_value(idx, "CompareOpType")
+        for op, exp in O.COMPARE.items():
+            ctx.need(op in mem, f"CompareOpType has no member spelled {op!r}")
+            for s in (True, False):
+                e = exp.format(p="S" if s else "U")
+                fi, outs = run_il_exec(idx, "CompareOp", lambda: {
                     "op_type": mem[op],
-                    "ops": [mk_pure("a", mk_vt("ta", sa, 32))] + ([] if unary else [mk_pure("b", mk_vt("tb", sb, 32))])})
-                ctx.check(f"BitOp.il_exec[{op},a={'s' if sa else 'u'},b={'s' if sb else 'u'}]", one_text(outs) == e, e, one_text(outs), fn_where(idx, fi))
-    # --- CompareOp: precondition (R02.3): both operands already have the common type, so sa == sb
-    mem = members_by_value(idx, "CompareOpType")
-    for op, exp in O.COMPARE.items():
-        ctx.need(op in mem, f"CompareOpType has no member spelled {op!r}")
-        for s in (True, False):
-            e = exp.format(p="S" if s else "U")
-            fi, outs = run_il_exec(idx, "CompareOp", lambda: {
-                "op_type": mem[op],
-                "ops": [mk_pure("a", mk_vt("ta", s, 32)), mk_pure("b", mk_vt("tb", s, 32))]})
-            ctx.check(f"CompareOp.il_exec[{op},{'s' if s else 'u'}]", one_text(outs) == e, e, one_text(outs), fn_where(idx, fi))
+                    "ops": [mk_pure("a", mk_vt("ta", s, W)), mk_pure("b", mk_vt("tb", s, W))]})
+                ctx.check(f"CompareOp.il_exec[{op},{'s' if s else 'u'}]{WS}", one_text(outs) == e, e, one_text(outs), fn_where(idx, fi))
     # --- BooleanOp: beta(x) = x if bool-sorted else NON_ZERO(x)
     mem = members_by_value(idx, "BooleanOpType")
     beta = lambda name, isb: f"<{name}>" if isb else f"NON_ZERO(<{name}>)"
@@ -97,6 +99,9 @@ def r02_1(ctx):
             "ops": [mk_pure("a", mk_vt("ta", False, 1 if bc else 32, ("PURE", "BOOL") if bc else ("PURE",))),
                     mk_pure("b", mk_vt("tb", True, 32)), mk_pure("c", mk_vt("tc", True, 32))]})
         ctx.check(f"Ternary.il_exec[cond {'bool' if bc else 'bv'}]", one_text(outs) == e, e, one_text(outs), fn_where(idx, fi))
+    from .c10 import truth_test_width_independence
+
+    truth_test_width_independence(ctx)
 
 
 # ------------------------------------------------------------------------------------------------------------------
